@@ -89,6 +89,9 @@ func (e *evidence) addReport(r *Run, rep *sx.Report, cfg *sx.Config) {
 		e.bounds[r.Label()+".default_scheduler"] = "newest-ready-goroutine-first, current goroutine continues at switch points"
 	}
 	e.bounds[r.Label()+".max_instructions_per_path"] = cfg.MaxSteps
+	if r.CrossEvery > 1 {
+		e.bounds[r.Label()+".thorough_cross_check_one_assertion_batch_in"] = r.CrossEvery
+	}
 	var sw []string
 	for s := range cfg.SwitchOn {
 		sw = append(sw, s)
